@@ -27,4 +27,8 @@ def printFaceL (a b c : Corner) : List Char :=
 /-- the `f` line of the writer (without the line break) -/
 def printFace (a b c : Corner) : String := String.ofList (printFaceL a b c)
 
+/-- the first fields the lexer acts on; a line with any other first field is `.other` (ignored by the reader).
+    Proved equal (as a set) to the case labels of `switch components[0]` in reader.go (`lexKeywords_from_source`). -/
+def lexKeywords : List String := ["v", "vn", "vt", "f", "g", "usemtl", "mtllib"]
+
 end PolyVerif.ObjText
